@@ -5,26 +5,43 @@
      store s                 path -> bytes; a path that is not in the store is a missing object
      rd_apply d f s          the store with object f deleted (RdDeleted) or cut to its first t bytes (RdTruncated t)
      leaf                    one ReadReq as an io preparer emits it: location, byte range or None, consumer kind
-                             (RdTensor esize shape: buffer-protocol tensor / shard;  RdLoad: torch.load)
+                             (RdTensor esize shape: buffer-protocol tensor / tile / shard;  RdLoad: torch.load)
      rd_restore legacy batching ls s
                              plan the reads (batching off: one per leaf; on: batch_read_requests of model/Batch.v),
                              read every request from the store (short object => short buffer, missing => error),
-                             run every consumer (BatchedBufferConsumer: Python slices of the buffer, then the
-                             sub-consumers; errors propagate unless legacy), raise the first error.
+                             run every consumer (tensor: deserialization needs exactly esize*numel bytes;
+                             BatchedBufferConsumer: Python slices of the buffer, then the sub-consumers, errors
+                             propagate unless legacy), every request exactly once, first error raised
+                             (C11_read_exactly_once, C11_read_failure_raises).
                              None = the call raises;  Some out = it returns and out lists (consumer, stored value)
-     rd_plan_wf save s ls    every leaf is consistent with the undamaged store s
-                               RdTensor with range [lo,hi): 0 < esize, shape >= 0, 0 <= lo, hi - lo = esize*prod(shape),
-                                                            the object exists and hi <= its size
-                               RdTensor without range:      the object exists and its size = esize*prod(shape)
-                               RdLoad:                      no range, the object is  save o  for some o
+     rd_plan_wf obj save s ls every leaf is consistent with the undamaged store s
+                               RdTensor, range [lo,hi): 0 < esize, numel >= 0, 0 <= lo, hi - lo = esize*numel,
+                                                        the object exists and hi <= its size
+                               RdTensor, no range:      the object exists and its size = esize*numel
+                               RdLoad:                  no range, the object is  save o  for some o
                              and no two leaves name the same location with the same NON-EMPTY range
      rd_leaf_damaged s f d l l reads from f and d removed something l needs:
                                deleted: always;  truncated at t: whole-object read and t < size, or a non-empty
                                range [lo,hi) with t < hi
-   torch.load / torch.save are external: [load], [save] with the two assumed laws stated in every theorem. *)
+     rd_expected obj load s l the value leaf l stores from the undamaged store: the bytes of its range / the loaded object
+   Entries (prepare_read): rd_parts limit es = the tensor reads the entries consist of (plain; one per chunk; one per
+   shard; an object = a whole-object torch.load read), each with the buffer limit that applies (read_object's
+   memory_budget_bytes for plain tensors and chunks, never for shards);  rd_read_plan limit es = their leaves (tiles).
+   torch.load / torch.save are external: [load], [save] with the two assumed laws stated in every theorem that needs
+   them (satisfiable: C04_assumed_law_is_satisfiable). *)
 From TS Require Import model.Base model.FsStream model.Chunk model.Batch model.ReadDamage.
 From TS Require Import proofs.ChunkProofs proofs.BatchProofs proofs.ReadDamageProofs.
 
+(* ------------------------------------------------------------------ consumers *)
+(* tensor_from_memoryview (empty-buffer branch, torch.frombuffer, reshape) accepts a buffer exactly when its length is
+   esize * numel, and then the tensor is that buffer. *)
+Theorem C04_tensor_consumer_accepts_exact_length_only : forall esize shape (buf v : bytes),
+  0 < esize -> 0 <= prodZ shape ->
+  (rd_frombuffer esize shape buf = Some v <-> blen buf = esize * prodZ shape /\ v = buf).
+Proof. exact rd_frombuffer_some. Qed.
+Print Assumptions C04_tensor_consumer_accepts_exact_length_only.
+
+(* ------------------------------------------------------------------ the two halves of the property *)
 (* If the damage hits a range that some leaf needs, restore / read_object raise - never Ok with any value -
    with batching on or off, for every well-formed plan, every object f, deletion and every truncation length. *)
 Theorem C04_damaged_needed_range_raises :
@@ -55,3 +72,204 @@ Theorem C04_undamaged_succeeds :
                   /\ (forall v', In (Z.of_nat i, v') out -> v' = v).
 Proof. exact rd_undamaged_succeeds. Qed.
 Print Assumptions C04_undamaged_succeeds.
+
+(* Truncating an object at or above the largest hi that is read from it changes NOTHING: the result (error or values) is
+   the one obtained from the untruncated store - any loader, batching on or off, current or legacy consumer.
+   (A leaf without byte range reads the whole object: then no truncation below the size qualifies, see the first
+   theorem.) *)
+Theorem C04_truncation_beyond_needs_is_harmless :
+  forall (obj : Type) (load : bytes -> option obj) (legacy batching : bool) (ls : list rd_leaf) (s : rd_store) (f t : Z),
+    rd_ranges_wf ls ->
+    (forall l, In l ls -> lf_path l = f -> exists lo hi, lf_range l = Some (lo, hi) /\ hi <= t) ->
+    rd_restore obj load legacy batching ls (rd_apply (RdTruncated t) f s) = rd_restore obj load legacy batching ls s.
+Proof. exact rd_truncation_beyond_needs_harmless. Qed.
+Print Assumptions C04_truncation_beyond_needs_is_harmless.
+
+(* With batching on, the merged read request of a location covers exactly [min lo, max hi) of the ranges requested from
+   it: both ends are attained by some leaf and every leaf's range lies inside. *)
+Theorem C04_batched_read_extent : forall (ls : list rd_leaf) p lo hi subs,
+  In (RdBatched p lo hi subs) (rd_plan true ls) ->
+  (exists l h, In l ls /\ lf_path l = p /\ lf_range l = Some (lo, h))
+  /\ (exists l a, In l ls /\ lf_path l = p /\ lf_range l = Some (a, hi))
+  /\ (forall l a b, In l ls -> lf_path l = p -> lf_range l = Some (a, b) -> lo <= a /\ b <= hi).
+Proof. exact rd_batched_extent. Qed.
+Print Assumptions C04_batched_read_extent.
+
+(* ------------------------------------------------------------------ zero-length ranges *)
+(* An object from which only EMPTY ranges are read (zero-length tensors in a slab) can be truncated anywhere, to 0 bytes
+   included: an empty needed range is never damaged by truncation and the call returns with the saved values ... *)
+Theorem C04_empty_ranges_survive_truncation :
+  forall (obj : Type) (load : bytes -> option obj) (save : obj -> bytes),
+    (forall o, load (save o) = Some o) ->
+    (forall o t, 0 <= t < blen (save o) -> load (firstn (Z.to_nat t) (save o)) = None) ->
+  forall (batching : bool) (s : rd_store) (ls : list rd_leaf) (f t : Z),
+    rd_plan_wf obj save s ls -> 0 <= t ->
+    (forall l, In l ls -> lf_path l = f -> exists lo, lf_range l = Some (lo, lo)) ->
+    exists out, rd_restore obj load false batching ls (rd_apply (RdTruncated t) f s) = Some out /\
+      forall i l, nth_error ls i = Some l ->
+        exists v, rd_expected obj load s l = Some v
+                  /\ (v <> RdBytes [] -> In (Z.of_nat i, v) out)
+                  /\ (forall v', In (Z.of_nat i, v') out -> v' = v).
+Proof. exact rd_empty_ranges_survive_truncation. Qed.
+Print Assumptions C04_empty_ranges_survive_truncation.
+
+(* ... but DELETING an object that any leaf names makes the call raise, even when only empty ranges are read from it:
+   the read request is still issued and open() fails (this is what the code does). *)
+Theorem C04_deleted_object_raises :
+  forall (obj : Type) (load : bytes -> option obj) (save : obj -> bytes),
+    (forall o, load (save o) = Some o) ->
+    (forall o t, 0 <= t < blen (save o) -> load (firstn (Z.to_nat t) (save o)) = None) ->
+  forall (batching : bool) (s : rd_store) (ls : list rd_leaf) (f : Z),
+    rd_plan_wf obj save s ls -> (exists l, In l ls /\ lf_path l = f) ->
+    rd_restore obj load false batching ls (rd_apply RdDeleted f s) = None.
+Proof. exact rd_deleted_object_raises. Qed.
+Print Assumptions C04_deleted_object_raises.
+
+(* ------------------------------------------------------------------ the pre-fix BatchedBufferConsumer *)
+(* With the consumer as it was before the fix (sub-consumer errors never retrieved) the property is FALSE: there is a
+   well-formed plan and a truncation that damages a needed range, yet the call returns normally and the damaged leaf's
+   target - which should receive [3; 4] - is left untouched (stale).  The current consumer raises on the same input.
+   Replayed by the harness on the real pipeline with the pre-fix method patched in. *)
+Theorem C04_legacy_batched_swallows_refuted :
+  forall (obj : Type) (load : bytes -> option obj) (save : obj -> bytes),
+  exists (ls : list rd_leaf) (s : rd_store) (f t : Z) (i : nat) (l : rd_leaf),
+    rd_plan_wf obj save s ls /\ 0 <= t /\ nth_error ls i = Some l /\ rd_leaf_damaged s f (RdTruncated t) l
+    /\ rd_expected obj load s l = Some (RdBytes [3; 4])
+    /\ (exists out, rd_restore obj load true true ls (rd_apply (RdTruncated t) f s) = Some out
+                    /\ rd_final_of obj out (Z.of_nat i) = RdUntouched)
+    /\ rd_restore obj load false true ls (rd_apply (RdTruncated t) f s) = None.
+Proof. exact rd_legacy_batched_swallows_refuted. Qed.
+Print Assumptions C04_legacy_batched_swallows_refuted.
+
+(* ------------------------------------------------------------------ entries: plain, chunked, tiled, sharded, object *)
+(* rd_tentry_wf obj save s (lim, t): the tensor read t is consistent with the undamaged store
+     buffer protocol: 0 < esize, extents >= 0;  byte_range [lo,hi): 0 <= lo, hi - lo = esize*numel, the object exists
+                      and hi <= its size;  no byte_range: the object exists and its size = esize*numel;
+                      tiled (lim = Some b): 1 <= b, and a target that cannot be flattened has >= 1 dimension
+     torch_save / object: no byte_range, the object is  save o
+   rd_tentry_damaged s f d t: the damage removes something the (untiled) read of t needs (rd_leaf_damaged of that read).
+   For every list of entries (plain tensors, chunked tensors, sharded tensors, objects, primitives) and every buffer
+   limit: the planner succeeds, every leaf it emits (tiles included) is consistent with the store, and some leaf is
+   damaged exactly when the damage removes something one of the entries' tensor reads needs. *)
+Theorem C04_read_plan_wellformed :
+  forall (obj : Type) (save : obj -> bytes) (s : rd_store) (limit : option Z) (es : list rd_entry),
+    Forall (rd_tentry_wf obj save s) (rd_parts limit es) ->
+    exists ls, rd_read_plan limit es = Some ls /\ Forall (rd_leaf_wf obj save s) ls
+               /\ forall f d, (forall tt, d = RdTruncated tt -> 0 <= tt) ->
+                    ((exists l, In l ls /\ rd_leaf_damaged s f d l)
+                     <-> (exists lt, In lt (rd_parts limit es) /\ rd_tentry_damaged s f d (snd lt))).
+Proof. exact rd_read_plan_wf. Qed.
+Print Assumptions C04_read_plan_wellformed.
+
+(* The property on entries: restore (limit = None, es = all entries of the rank's manifest) and read_object (es = [e],
+   limit = memory_budget_bytes), batching on or off.  The remaining hypothesis on the plan - no two read requests name the
+   same location with the same non-empty range - is C05's disjointness of committed entries; the harness checks it on
+   every real plan. *)
+Theorem C04_entries_damaged_raise :
+  forall (obj : Type) (load : bytes -> option obj) (save : obj -> bytes),
+    (forall o, load (save o) = Some o) ->
+    (forall o t, 0 <= t < blen (save o) -> load (firstn (Z.to_nat t) (save o)) = None) ->
+  forall (batching : bool) (s : rd_store) (limit : option Z) (es : list rd_entry) (ls : list rd_leaf) (f : Z) (d : rd_damage),
+    Forall (rd_tentry_wf obj save s) (rd_parts limit es) -> rd_read_plan limit es = Some ls -> rd_distinct_ranges ls ->
+    (forall t, d = RdTruncated t -> 0 <= t) ->
+    (exists lt, In lt (rd_parts limit es) /\ rd_tentry_damaged s f d (snd lt)) ->
+    rd_restore obj load false batching ls (rd_apply d f s) = None.
+Proof. exact rd_entries_damaged_raises. Qed.
+Print Assumptions C04_entries_damaged_raise.
+
+Theorem C04_entries_undamaged_succeed :
+  forall (obj : Type) (load : bytes -> option obj) (save : obj -> bytes),
+    (forall o, load (save o) = Some o) ->
+    (forall o t, 0 <= t < blen (save o) -> load (firstn (Z.to_nat t) (save o)) = None) ->
+  forall (batching : bool) (s : rd_store) (limit : option Z) (es : list rd_entry) (ls : list rd_leaf) (f : Z) (d : rd_damage),
+    Forall (rd_tentry_wf obj save s) (rd_parts limit es) -> rd_read_plan limit es = Some ls -> rd_distinct_ranges ls ->
+    (forall t, d = RdTruncated t -> 0 <= t) ->
+    (forall lt, In lt (rd_parts limit es) -> ~ rd_tentry_damaged s f d (snd lt)) ->
+    exists out, rd_restore obj load false batching ls (rd_apply d f s) = Some out /\
+      forall i l, nth_error ls i = Some l ->
+        exists v, rd_expected obj load s l = Some v
+                  /\ (v <> RdBytes [] -> In (Z.of_nat i, v) out)
+                  /\ (forall v', In (Z.of_nat i, v') out -> v' = v).
+Proof. exact rd_entries_undamaged_succeed. Qed.
+Print Assumptions C04_entries_undamaged_succeed.
+
+(* ------------------------------------------------------------------ the assumed law is satisfiable *)
+(* a self-delimiting archive format (length byte + payload) satisfies both assumptions made of torch.load/torch.save *)
+Theorem C04_assumed_law_is_satisfiable :
+  (forall o, rd_toy_load (rd_toy_save o) = Some o) /\
+  (forall o t, 0 <= t < blen (rd_toy_save o) -> rd_toy_load (firstn (Z.to_nat t) (rd_toy_save o)) = None).
+Proof. split; [exact rd_toy_load_save | exact rd_toy_prefix_rejected]. Qed.
+Print Assumptions C04_assumed_law_is_satisfiable.
+
+(* ------------------------------------------------------------------ non-vacuity *)
+(* store: slab 0 = three members [0,4) [4,4) [4,6) and a foreign tail; object 1 = a whole-file tensor; object 2 = an archive *)
+Definition C04_ex_store : rd_store := [(0, [10; 11; 12; 13; 20; 21; 99]); (1, [1; 2; 3; 4; 5; 6]); (2, rd_toy_save [7; 7])].
+Definition C04_ex_leaves : list rd_leaf :=
+  [mkLeaf 0 (Some (0, 4)) (RdTensor 2 [2]); mkLeaf 0 (Some (4, 4)) (RdTensor 4 [0; 3]); mkLeaf 0 (Some (4, 6)) (RdTensor 1 [2]);
+   mkLeaf 1 None (RdTensor 2 [3]); mkLeaf 2 None RdLoad].
+Definition C04_ex_run (batching : bool) (f : Z) (d : rd_damage) :=
+  rd_restore bytes rd_toy_load false batching C04_ex_leaves (rd_apply d f C04_ex_store).
+
+(* the hypotheses of the theorems hold for this plan *)
+Example C04_ex_wf : rd_plan_wf bytes rd_toy_save C04_ex_store C04_ex_leaves.
+Proof.
+  split.
+  - repeat (apply Forall_cons || apply Forall_nil); unfold rd_leaf_wf;
+      cbn [lf_kind lf_range lf_path C04_ex_store prodZ fold_right].
+    + split; [lia | split; [lia | split; [lia | split; [lia|]]]]. eexists. split; [reflexivity | unfold blen; cbn [length]; lia].
+    + split; [lia | split; [lia | split; [lia | split; [lia|]]]]. eexists. split; [reflexivity | unfold blen; cbn [length]; lia].
+    + split; [lia | split; [lia | split; [lia | split; [lia|]]]]. eexists. split; [reflexivity | unfold blen; cbn [length]; lia].
+    + split; [lia | split; [lia|]]. eexists. split; [reflexivity | unfold blen; cbn [length]; lia].
+    + exists [7; 7]. reflexivity.
+  - intros i j li lj lo hi Hi Hj _ Hri Hrj Hlt.
+    destruct i as [|[|[|[|[|i]]]]]; cbn in Hi; try (destruct i; discriminate); inversion Hi; subst li; cbn in Hri;
+      try discriminate; inversion Hri; subst lo hi; try lia;
+      destruct j as [|[|[|[|[|j]]]]]; cbn in Hj; try (destruct j; discriminate); inversion Hj; subst lj; cbn in Hrj;
+      try discriminate; inversion Hrj; try lia; reflexivity.
+Qed.
+
+(* no damage / harmless damage: everything is delivered, with batching on and off (object -1 does not exist) *)
+Example C04_ex_undamaged :
+  C04_ex_run false (-1) RdDeleted
+  = Some [(0, RdBytes [10; 11; 12; 13]); (1, RdBytes []); (2, RdBytes [20; 21]); (3, RdBytes [1; 2; 3; 4; 5; 6]); (4, RdObj [7; 7])]
+  /\ C04_ex_run true (-1) RdDeleted
+     = Some [(3, RdBytes [1; 2; 3; 4; 5; 6]); (4, RdObj [7; 7]); (0, RdBytes [10; 11; 12; 13]); (1, RdBytes []); (2, RdBytes [20; 21])]
+  /\ C04_ex_run true 0 (RdTruncated 6) = C04_ex_run true (-1) RdDeleted         (* only the foreign tail is cut *)
+  /\ C04_ex_run false 0 (RdTruncated 6) = C04_ex_run false (-1) RdDeleted.
+Proof. vm_compute. repeat split; reflexivity. Qed.
+
+(* every other truncation of the slab, every truncation of the whole-file tensor and of the archive, and every deletion
+   raise - batching on and off *)
+Example C04_ex_damaged :
+  forallb (fun b => forallb (fun t => match C04_ex_run b 0 (RdTruncated t) with None => true | Some _ => false end) [0; 1; 2; 3; 4; 5])
+          [true; false] = true
+  /\ forallb (fun b => forallb (fun t => match C04_ex_run b 1 (RdTruncated t) with None => true | Some _ => false end) [0; 1; 2; 3; 4; 5])
+             [true; false] = true
+  /\ forallb (fun b => forallb (fun t => match C04_ex_run b 2 (RdTruncated t) with None => true | Some _ => false end) [0; 1; 2])
+             [true; false] = true
+  /\ forallb (fun b => forallb (fun f => match C04_ex_run b f RdDeleted with None => true | Some _ => false end) [0; 1; 2])
+             [true; false] = true.
+Proof. vm_compute. repeat split; reflexivity. Qed.
+
+(* a slab holding only a zero-length tensor: any truncation is harmless, deletion raises *)
+Example C04_ex_empty_only :
+  let ls := [mkLeaf 0 (Some (3, 3)) (RdTensor 4 [0; 3])] in
+  let s : rd_store := [(0, [9; 9; 9; 9])] in
+  rd_restore bytes rd_toy_load false true ls (rd_apply (RdTruncated 0) 0 s) = Some [(0, RdBytes [])]
+  /\ rd_restore bytes rd_toy_load false false ls (rd_apply (RdTruncated 0) 0 s) = Some [(0, RdBytes [])]
+  /\ rd_restore bytes rd_toy_load false true ls (rd_apply RdDeleted 0 s) = None
+  /\ rd_restore bytes rd_toy_load false false ls (rd_apply RdDeleted 0 s) = None.
+Proof. vm_compute. repeat split; reflexivity. Qed.
+
+(* entries -> leaves: a slab member read with an 8-byte buffer limit (tiles), a chunked tensor, a sharded tensor, an
+   object and a primitive; then the same call on a store where the slab is cut inside the last tile *)
+Example C04_ex_read_plan :
+  rd_read_plan (Some 8)
+    [RdETensor (mkTentry 0 (Some (4, 28)) true 4 [2; 3] true);
+     RdEChunked [mkTentry 1 None true 4 [2; 3] true; mkTentry 0 (Some (28, 40)) true 4 [1; 3] true];
+     RdESharded [mkTentry 2 None true 2 [4] true]; RdEObject 3; RdEPrimitive]
+  = Some [mkLeaf 0 (Some (4, 12)) (RdTensor 4 [2]); mkLeaf 0 (Some (12, 20)) (RdTensor 4 [2]); mkLeaf 0 (Some (20, 28)) (RdTensor 4 [2]);
+          mkLeaf 1 (Some (0, 8)) (RdTensor 4 [2]); mkLeaf 1 (Some (8, 16)) (RdTensor 4 [2]); mkLeaf 1 (Some (16, 24)) (RdTensor 4 [2]);
+          mkLeaf 0 (Some (28, 36)) (RdTensor 4 [2]); mkLeaf 0 (Some (36, 40)) (RdTensor 4 [1]);
+          mkLeaf 2 None (RdTensor 2 [4]); mkLeaf 3 None RdLoad].
+Proof. vm_compute. reflexivity. Qed.
